@@ -14,7 +14,8 @@ ID = "C17"
 LEVEL = "exploration"
 RULE = ("Cases: (key bytes, list of partition counts, availability subset). Exhaustive campaigns "
         "enumerate every key of length 0..2 and every key of length 0..7 over {00,7f,80,ff}; "
-        "random campaigns draw keys up to 4 KiB, counts 1..1000, and unkeyed calls. "
+        "random campaigns draw keys up to 4 KiB, counts 1..1000, and unkeyed calls; the producer_path campaign "
+        "calls AIOKafkaProducer._partition (what send() uses) over metadata snapshots with leaderless partitions. "
         "Non-trivial = keyed case whose key has a tail (len % 4 != 0) or a byte >= 0x80 "
         "(sign-extension sensitive), or an unkeyed case with a non-empty proper availability "
         "subset. Distinct = distinct case value.")
@@ -152,6 +153,76 @@ def exec_unkeyed(case):
     return out
 
 
+def exec_producer_path(case):
+    """The code path send() uses: AIOKafkaProducer._partition over the producer's cluster metadata, in which some
+    partitions have no leader.  Keyed: Java's partition regardless of availability; unkeyed: an available one."""
+    import asyncio
+    from aiokafka.producer import AIOKafkaProducer
+    from aiokafka.protocol.metadata import MetadataResponse_v0
+    out = Outcome()
+    n = case["n"]
+    unavailable = {i for i in range(n) if not (case["avail_bits"] >> (i % 60)) & 1}
+    avail = set(range(n)) - unavailable
+    out.nontrivial = 0 < len(avail) < n
+    out.label("producer_path", "avail_empty" if not avail else ("avail_all" if len(avail) == n else "avail_proper"))
+
+    async def main():
+        producer = AIOKafkaProducer(bootstrap_servers="127.0.0.1:1")      # never started: no I/O
+        parts = [(0, q, -1 if q in unavailable else 0, [0], [0] if q not in unavailable else []) for q in range(n)]
+        producer._metadata.update_metadata(MetadataResponse_v0([(0, "127.0.0.1", 9092)], [(0, "t", parts)]))
+        if producer._metadata.partitions_for_topic("t") != set(range(n)) or \
+                producer._metadata.available_partitions_for_topic("t") != avail:
+            raise RuntimeError("harness: metadata snapshot not as constructed")
+        random.seed(case["rng_seed"])
+        for key in case["keys"]:
+            want = java_partition(key, n)
+            try:
+                got = producer._partition("t", None, key, b"v", key, b"v")
+            except Exception as e:
+                out.fail("java_equal", "producer_path_raises", {"key": key, "n": n, "unavailable": sorted(unavailable), "error": repr(e)})
+                continue
+            if got != want:
+                out.fail("java_equal", "producer_path_depends_on_available" if avail != set(range(n)) else "producer_path_partition",
+                         {"key": key, "n": n, "unavailable": sorted(unavailable), "got": got, "java": want})
+        for _ in range(case["calls"]):
+            try:
+                got = producer._partition("t", None, None, b"v", None, b"v")
+            except Exception as e:
+                out.fail("unkeyed_available", "producer_path_raises", {"n": n, "unavailable": sorted(unavailable), "error": repr(e)})
+                break
+            if (avail and got not in avail) or got not in range(n):
+                out.fail("unkeyed_available", "producer_path_not_in_available", {"n": n, "unavailable": sorted(unavailable), "got": got})
+                break
+        if case.get("explicit") is not None:
+            q = case["explicit"] % n
+            if producer._partition("t", q, b"k", b"v", b"k", b"v") != q:
+                out.fail("java_equal", "producer_path_explicit_partition_changed", {"n": n, "partition": q})
+        producer._closed = True      # silences the "Unclosed AIOKafkaProducer" warning of __del__
+
+    loop = asyncio.new_event_loop()
+    try:
+        loop.run_until_complete(main())
+    finally:
+        loop.close()
+    return out
+
+
+def _strat_producer_path():
+    from hypothesis import strategies as st
+    byte_biased = st.one_of(st.sampled_from([0, 1, 0x7F, 0x80, 0xFF]), st.integers(0, 255))
+    keys = st.one_of(st.binary(max_size=24), st.lists(byte_biased, max_size=12).map(bytes))
+    return st.fixed_dictionaries({
+        "n": st.one_of(st.integers(1, 12), st.integers(1, 200)),
+        "avail_bits": st.one_of(st.just(0), st.integers(0, (1 << 60) - 1), st.just((1 << 60) - 1),
+                                st.integers(0, 59).map(lambda i: ((1 << 60) - 1) ^ (1 << i)),
+                                st.integers(0, 59).map(lambda i: 1 << i)),
+        "keys": st.lists(keys, min_size=1, max_size=6),
+        "calls": st.integers(0, 8),
+        "rng_seed": st.integers(0, 2 ** 32),
+        "explicit": st.one_of(st.none(), st.integers(0, 500)),
+    })
+
+
 def _short_keys(shard, nshards):
     i = 0
     for length in (0, 1, 2):
@@ -209,4 +280,6 @@ def campaigns(tier):
                  examples=60000 if thorough else 4000),
         Campaign("unkeyed", "hyp", execute=exec_unkeyed, strategy=_strat_unkeyed,
                  examples=20000 if thorough else 2000),
+        Campaign("producer_path", "hyp", execute=exec_producer_path, strategy=_strat_producer_path,
+                 examples=20000 if thorough else 1600),
     ]
